@@ -44,7 +44,10 @@ def suite(wt):
 
 def demo(wt, demo_src):
     shutil.copy(demo_src, os.path.join(wt, "tests", "seed_demo.rs"))
-    rc, out = sh("cargo test --offline --features full --test seed_demo", cwd=wt)
+    env = dict(ENV)
+    if "#![feature(" in open(demo_src).read():
+        env["RUSTC_BOOTSTRAP"] = "1"   # the demonstration itself needs a nightly feature (e.g. Backtrace fields)
+    rc, out = sh("cargo test --offline --features full --test seed_demo", cwd=wt, env=env)
     os.remove(os.path.join(wt, "tests", "seed_demo.rs"))
     m = re.findall(r"^test result: (\w+)\. (\d+) passed; (\d+) failed", out, re.M)
     return rc, m, out
@@ -55,6 +58,7 @@ def main():
     src = "/tmp/seed_out"
     tier = "quick"
     check_id = pid
+    name = ""
     args = sys.argv[3:]
     while args:
         a = args.pop(0)
@@ -64,8 +68,12 @@ def main():
             tier = args.pop(0)
         elif a == "--check":
             check_id = args.pop(0)
+        elif a == "--name":
+            name = args.pop(0)
     d = os.path.join(src, pid, k)
-    out_dir = os.path.join(VERIF, "seeded", "%s_%s" % (pid, k))
+    while args:
+        args.pop(0)
+    out_dir = os.path.join(VERIF, "seeded", "%s_%s%s" % (pid, (name + "_") if name else "", k))
     os.makedirs(out_dir, exist_ok=True)
     wt = "/tmp/sc_%s_%s" % (pid, k)
     sh("git -C /repo worktree remove --force %s" % wt)
